@@ -110,6 +110,7 @@ def build_plan(choice: Choice, tier):
         kind = d(4, "parent.op")
         pops.append(["get", d(universe, "parent.id")] if kind <= 1 else (["len"] if kind == 2 else ["list"]))
     p["parent_script"] = pops
+    p["file_prefix"] = [None, None, "st", "my.prefix_1"][d(4, "file_prefix")]
     p["torn"] = d(3, "torn") == 2
     # fault family: a store whose text cannot be encoded, and/or a failing disk under one writer
     p["write_fault"] = None
@@ -204,7 +205,10 @@ def scenario(k: Kernel, plan, obs):
         st.open = sim_open
     hist = History()
     obs["hist"] = hist
-    storage = st.TextFileStorage(tmp, number_of_data=plan["presize"])
+    if plan.get("file_prefix"):
+        storage = st.TextFileStorage(tmp, plan["file_prefix"], number_of_data=plan["presize"])
+    else:
+        storage = st.TextFileStorage(tmp, number_of_data=plan["presize"])
     obs["storage"] = storage
 
     class Actor(ctx.Process):
